@@ -138,12 +138,12 @@ FALLBACK = {
     "c17ValidatorAffix": '("__attr_validator_", "")',
     "c17AttributeAffix": '("__attr_attribute_", "")',
     "c17ConverterAffix": '("__attr_converter_", "")',
-    "c17EqKeyAffix": '("_", "_key")',
-    "c17HashKeyAffix": '("_", "_key")',
-    "c17ReprAffix": '("", "_repr")',
-    "c17ReprCallAffix": '("", "_repr")',
+    "c17EqKeyAffix": '("__attr_key_", "")',
+    "c17HashKeyAffix": '("__attr_key_", "")',
+    "c17ReprAffix": '("__attr_repr_", "")',
+    "c17ReprCallAffix": '("__attr_repr_", "")',
     "c17ReprFixed": '["_compat", "AttributeError", "NOTHING", "id", "getattr"]',
-    "c17EqFixed": '[]',
+    "c17EqFixed": '["NotImplemented"]',
     "c17HashFixed": '["hash", "object", "__import__"]',
     "c17InitFixed": '["NOTHING", "attr_dict"]',
     "c17EvalMergeOrder": '["module", "snippets"]',
@@ -296,12 +296,12 @@ def _c17_repr_call_affix(mk: Src) -> str:
     found = []
     for n in ast.walk(fn):
         if isinstance(n, ast.Constant) and isinstance(n.value, str):
-            m = re.fullmatch(r"%s=\{%s(\w*)\(%s\)\}", n.value)
+            m = re.fullmatch(r"%s=\{(\w*)%s(\w*)\(%s\)\}", n.value)
             if m:
-                found.append(m.group(1))
+                found.append((m.group(1), m.group(2)))
     if len(found) != 1:
         raise ValueError("custom-repr fragment not found")
-    return _lean_pair("", found[0])
+    return _lean_pair(*found[0])
 
 
 def _in_order(fn: ast.AST):
